@@ -50,8 +50,7 @@ def script_text(backend: str) -> str:
 
 def to_model(sc: Dict[str, Any]):
     c = {**DEFAULT_CFG, **sc["config"]}
-    fl = {"dir": 0, "local": 1, "none": 2}[c["filelist"]]
-    return [[fl, c["release_setup"], c["entrypoint"], c["calib"], c["cvsroot"]],
+    return [[c["filelist"] in ("dir", "both"), c["filelist"] in ("local", "both"), c["release_setup"], c["entrypoint"], c["calib"], c["cvsroot"]],
             [[p, t] for p, t in sorted(c.get("stale", {}).items())],
             [[list(i["args"]), list(i.get("fail", [])), i["nonce"]] for i in sc["history"]]]
 
@@ -191,7 +190,7 @@ def flag_args(c: bool, r: bool, d: Optional[str], o: Optional[str], rng: Optiona
 
 
 def configs_for(backend: str) -> List[Dict[str, Any]]:
-    base = [{}, {"filelist": "local"}, {"filelist": "none"}]
+    base = [{}, {"filelist": "local"}, {"filelist": "none"}, {"filelist": "both"}]
     if backend == "atlas_r21":
         base += [{"calib": True}, {"release_setup": False}, {"calib": True, "filelist": "local"}]
     else:
